@@ -433,6 +433,21 @@ class LevelFn:
                         env[n.id] = ('other', f"element of {norm(it)}")
         return env
 
+    def comp_env(self, gen, at):
+        """loop-variable bindings of one comprehension clause over m._dsl.<Y> / .items() / .keys(); None when not understood"""
+        it, meth = gen.iter, None
+        if isinstance(it, ast.Call) and isinstance(it.func, ast.Attribute) and not it.args and it.func.attr in ('items', 'keys'):
+            meth, it = it.func.attr, it.func.value
+        Y = self.src_of(it, at)
+        if Y is None:
+            return None
+        tg = gen.target
+        if meth == 'items' and isinstance(tg, ast.Tuple) and len(tg.elts) == 2 and all(isinstance(x, ast.Name) for x in tg.elts):
+            return {tg.elts[0].id: ('key', Y), tg.elts[1].id: ('item', Y, Y)}
+        if meth in (None, 'keys') and isinstance(tg, ast.Name):
+            return {tg.id: ('key', Y)}
+        return None
+
     def absval(self, e, at, env, depth=0):
         if isinstance(e, ast.Name):
             if e.id in env:
@@ -554,6 +569,10 @@ class LevelFn:
                     kind = 'union'
                 elif isinstance(st.op, ast.Sub):
                     kind = 'diff'
+                elif isinstance(st.op, ast.BitAnd) and key is None and self.agg_of(st.value, st) is not None and not self.additive:
+                    # A &= B with B another whole-design aggregate: A keeps only what is (still) in B
+                    self._emit('restrict', a, None, ('agg', self.agg_of(st.value, st)), st)
+                    continue
                 else:
                     raise AnalysisError(f"{self.qual}: operator outside the domain in `{norm(st)}`")
                 self._emit(kind, a, None if key is None else self.absval(key, st, env), self.absval(st.value, st, env), st)
@@ -596,8 +615,20 @@ class LevelFn:
                     v = self.absval(args[0], st, env)
                     if key is None and kind_decl in ('dict', 'defaultdict'):
                         dc = args[0]
+                        pair = None
+                        if isinstance(dc, (ast.GeneratorExp, ast.ListComp, ast.SetComp)) and isinstance(dc.elt, ast.Tuple) \
+                                and len(dc.elt.elts) == 2 and len(dc.generators) == 1 and not dc.generators[0].ifs:
+                            pair = (dc.elt.elts[0], dc.elt.elts[1], dc.generators[0])
+                        elif isinstance(dc, ast.DictComp) and len(dc.generators) == 1 and not dc.generators[0].ifs:
+                            pair = (dc.key, dc.value, dc.generators[0])
+                        cenv = self.comp_env(pair[2], st) if pair else None
                         if v[0] == 'field':
                             self._emit('assign', a, ('key', v[1]), ('item', v[1], v[1]), st)
+                        elif pair and cenv is not None:
+                            # the keyed stores the call performs:  for <target> in <iter>: AGG[k] = v
+                            env2 = dict(env)
+                            env2.update(cenv)
+                            self._emit('assign', a, self.absval(pair[0], st, env2), self.absval(pair[1], st, env2), st)
                         elif isinstance(dc, ast.DictComp) and len(dc.generators) == 1 and isinstance(dc.generators[0].iter, ast.Call) \
                                 and isinstance(dc.generators[0].iter.func, ast.Attribute) and dc.generators[0].iter.func.attr == 'items' \
                                 and self.src_of(dc.generators[0].iter.func.value, st) and isinstance(dc.generators[0].target, ast.Tuple) \
@@ -612,6 +643,9 @@ class LevelFn:
                         self._emit('union', a, k, v, st)
                 elif meth == 'add' and len(args) == 1:
                     self._emit('union', a, k, ('single', self.absval(args[0], st, env)), st)
+                elif meth == 'intersection_update' and len(args) == 1 and key is None and self.agg_of(args[0], st) is not None \
+                        and not self.additive:
+                    self._emit('restrict', a, None, ('agg', self.agg_of(args[0], st)), st)
                 elif meth == 'difference_update' and len(args) == 1:
                     self._emit('diff', a, k, self.absval(args[0], st, env), st)
                 elif meth in ('discard', 'remove') and len(args) == 1:
@@ -623,6 +657,34 @@ class LevelFn:
                     self.discarded.append((a, meth, st))
                 else:
                     raise AnalysisError(f"{self.qual}: method call on an aggregate outside the domain: {norm(st)}")
+
+
+def _field_subset(repo, F, G):
+    """is every element ever added to <c>._dsl.F also added to <c>._dsl.G (same call, possibly through one method call)?"""
+    if F == G:
+        return True
+    fns = _level_functions(repo)
+
+    def adds_to(f, fld):
+        return [n.args[0] for n in ast.walk(f) if isinstance(n, ast.Call) and isinstance(n.func, ast.Attribute) and n.func.attr == 'add'
+                and len(n.args) == 1 and (_dsl_attr(n.func.value) or ('', ''))[1] == fld]
+    sites = [(f, v) for fm, fc, f in fns for v in adds_to(f, F)]
+    if not sites:
+        return False
+    for f, v in sites:
+        ok = any(norm(w) == norm(v) for w in adds_to(f, G))
+        if not ok:
+            for c in [n for n in ast.walk(f) if isinstance(n, ast.Call) and isinstance(n.func, ast.Attribute)
+                      and any(norm(x) == norm(v) for x in n.args)]:
+                for fm2, fc2, f2 in fns:
+                    if f2.name == c.func.attr and f2 is not f:
+                        ps = _params(f2)
+                        pos = [i for i, x in enumerate(c.args) if norm(x) == norm(v)][0] + 1
+                        if pos < len(ps) and any(norm(w) == ps[pos] for w in adds_to(f2, G)):
+                            ok = True
+        if not ok:
+            return False
+    return True
 
 
 def _keyeq(repo, k1, k2):
@@ -638,6 +700,8 @@ def _inverse(repo, a, r):
     if a.agg != r.agg:
         return False
     if a.kind == 'union' and a.key is None:
+        if r.kind == 'restrict':
+            return a.val[0] == 'field' and a.val[1] in getattr(r, 'restrict_ok', ())
         return r.kind == 'diff' and r.key is None and r.val == a.val and a.val[0] in ('field', 'single')
     if a.kind == 'assign':
         return r.kind == 'del' and _keyeq(repo, a.key, r.key)
@@ -742,11 +806,52 @@ def rule_inverse(repo):
     ureach_names = {c.name for m, c, fn in ureach}
     add_by_agg, rem_by_agg = {}, {}
     order = [c.name for m, c in _mro(repo)]
+    levels = {}
     for cname in order:
-        if cname not in cmap and cname not in umap:
+        if cname in cmap or cname in umap:
+            levels[cname] = (LevelFn(repo, *cmap[cname], declared, True) if cname in cmap else None,
+                             LevelFn(repo, *umap[cname], declared, False) if cname in umap else None)
+    # `A &= B` removes the component's entries from A exactly when they have ALREADY left B and were in B to begin with
+    for cname, (adds0, rems0) in levels.items():
+        for x in (rems0.effects if rems0 else []):
+            if x.kind != 'restrict':
+                continue
+            B = x.val[1]
+            x.restrict_ok, x.restrict_why = set(), f"nothing removes the component's entries from {B}"
+            sup, _ = _super_call(rems0.fn, '_uncollect_vars')
+
+            def top_i(node, fn_=rems0.fn):
+                cur = node
+                while cur is not None and not any(cur is b for b in fn_.body):
+                    cur = parent(cur)
+                return -1 if cur is None else [i for i, b in enumerate(fn_.body) if b is cur][0]
+            for c2, (adds2, rems2) in levels.items():
+                for bd in (rems2.effects if rems2 else []):
+                    if not (bd.agg == B and bd.kind == 'diff' and bd.key is None and bd.val[0] == 'field'):
+                        continue
+                    G = bd.val[1]
+                    if c2 == cname:
+                        before = bd.node.lineno < x.node.lineno and top_i(bd.node) <= top_i(x.node)
+                        where = f"`{bd.text}` in the same method"
+                    elif order.index(c2) > order.index(cname):        # a base class: runs inside the super() call
+                        before = sup is not None and top_i(sup) < top_i(x.node)
+                        where = f"super()._uncollect_vars, which runs `{bd.text}` ({c2})"
+                    else:
+                        before, where = False, f"`{bd.text}` of the subclass {c2}, which runs after this method's body"
+                    if not before:
+                        x.restrict_why = f"it runs before {where}: at that point the component's blocks are still in {B}, " \
+                                         f"so the intersection removes nothing for the component being uncollected"
+                        continue
+                    for aa in (adds0.effects if adds0 else []):
+                        if aa.agg == x.agg and aa.kind == 'union' and aa.key is None and aa.val[0] == 'field':
+                            if _field_subset(repo, aa.val[1], G):
+                                x.restrict_ok.add(aa.val[1])
+                            else:
+                                x.restrict_why = f"<c>._dsl.{aa.val[1]} is not provably a subset of <c>._dsl.{G}"
+    for cname in order:
+        if cname not in levels:
             continue
-        adds = LevelFn(repo, *cmap[cname], declared, True) if cname in cmap else None
-        rems = LevelFn(repo, *umap[cname], declared, False) if cname in umap else None
+        adds, rems = levels[cname]
         a_eff = adds.effects if adds else []
         r_eff = rems.effects if rems else []
         for e in a_eff:
@@ -807,6 +912,13 @@ def rule_inverse(repo):
             if id(x) in used:
                 continue
             m, c, fn = umap[cname]
+            if x.kind == 'restrict':
+                r.bad(m, rems.qual, f"{x.agg} restricted to {x.val[1]} too early / without effect",
+                      f"`{x.text}` keeps in {x.agg} only what is still in {x.val[1]}; that removes the uncollected component's entries "
+                      f"only if they have already left {x.val[1]}, but {x.restrict_why}: after _uncollect_vars(m) the blocks of m "
+                      f"remain in {x.agg} (e.g. a stale update_ff block without host object is scheduled after replace_component)",
+                      x.node.lineno)
+                continue
             r.bad(m, rems.qual, x.text, f"removes from {x.agg} something {cname}._collect_vars never added there "
                   f"(key {x.key}, operand {x.val}): entries of other components are dropped or the component's own stay",
                   x.node.lineno)
@@ -3268,6 +3380,11 @@ def rule_flush(repo):
         for i, pname in enumerate(aps[1:4]):
             a = ac.args[i] if i < len(ac.args) else None
             rv = reaching_value(a.id, ac) if isinstance(a, ast.Name) else a
+            if rv is not None and isinstance(a, ast.Name):
+                bst = [st for k, st, v, _ in _bindings(fn, a.id) if k == 'assign']
+                rv = _expand(rv, bst[0] if len(bst) == 1 else ac)
+            elif rv is not None:
+                rv = _expand(rv, ac)
             cons = f"_add_component({pname}=...)"
             if rv is None or norm(rv) != want[pname]:
                 r.bad(m, qual, cons, f"{pname} is `{norm(rv) if rv is not None else norm(a)}`, must be {want[pname]} "
@@ -3293,6 +3410,9 @@ def rule_flush(repo):
                 r.bad(m, qual, f"_add_component({aps[4]}=...)", "the caller's object is not the one added", ac.lineno)
         else:
             rv = reaching_value(a.id, ac) if isinstance(a, ast.Name) else a
+            if rv is not None:
+                bst = [st for k, st, v, _ in _bindings(fn, a.id) if k == 'assign'] if isinstance(a, ast.Name) else []
+                rv = _expand(rv, bst[0] if len(bst) == 1 else ac)
             okc = isinstance(rv, ast.Call) and norm(rv.func) == ps[2] and \
                 [norm(x) for x in rv.args] == [f"*{foo}._dsl.args"] and \
                 [(k.arg, norm(k.value)) for k in rv.keywords] == [(None, f"{foo}._dsl.kwargs")]
@@ -3555,6 +3675,11 @@ MUTANTS = [
     _m('l2-metadata-deleted-only-when-component-has-ff-blocks', L2, """      for k in m._dsl.upblks:
         del s._dsl.all_upblk_reads[k]""", """      for k in ( m._dsl.upblks if m._dsl.update_ff else () ):
         del s._dsl.all_upblk_reads[k]""", 'R-C15-inverse'),
+    dict(name='seed-update-ff-restricted-before-super', rule='R-C15-inverse', edits=[
+        dict(file=L2, old="    super()._uncollect_vars( m )\n\n    if isinstance( m, ComponentLevel2 ):\n      s._dsl.all_update_ff -= m._dsl.update_ff\n",
+             new="    s._dsl.all_update_ff &= s._dsl.all_upblks\n    super()._uncollect_vars( m )\n\n    if isinstance( m, ComponentLevel2 ):\n", count=1)]),
+    _m('update-once-restricted-to-an-unrelated-table', L4, "      s._dsl.all_update_once   -= m._dsl.update_once",
+       "      s._dsl.all_update_once   &= s._dsl.all_update_ff", 'R-C15-inverse'),
     # --- pairing of collect / uncollect
     _m('l1-uu-constraints-not-removed', L1, "      s._dsl.all_U_U_constraints -= m._dsl.U_U_constraints", "      pass", 'R-C15-inverse'),
     _m('l4-once-subtracts-wrong-set', L4, "s._dsl.all_update_once   -= m._dsl.update_once",
@@ -4165,6 +4290,18 @@ EQUIV = [
     _m('saved-name-in-a-local', COMP, """              saved_connections.append( (other, "top"+repr(x)[1:]) ) # other is from outside""",
        """              removed_end_name = "top"+repr(x)[1:]
               saved_connections.append( (other, removed_end_name) )"""),
+    _m('update-ff-restricted-to-live-blocks-after-super', L2, "      s._dsl.all_update_ff -= m._dsl.update_ff\n",
+       "      s._dsl.all_update_ff &= s._dsl.all_upblks\n"),
+    _m('update-once-restricted-by-intersection-update', L4, "      s._dsl.all_update_once   -= m._dsl.update_once",
+       "      s._dsl.all_update_once.intersection_update( s._dsl.all_upblks )"),
+    dict(name='replace-reads-through-dsl-alias', edits=[
+        dict(file=COMP, old="    foo_name    = foo._dsl._my_name\n    foo_indices = foo._dsl._my_indices\n",
+             new="    foo_dsl     = foo._dsl\n    foo_name    = foo_dsl._my_name\n    foo_indices = foo_dsl._my_indices\n", count='first'),
+        dict(file=COMP, old="    new_obj = cls( *foo._dsl.args, **foo._dsl.kwargs )", new="    new_obj = cls( *foo_dsl.args, **foo_dsl.kwargs )", count=1)]),
+    _m('hostobj-stored-by-update-of-pairs', L1, "      for blk in m._dsl.upblks:\n        s._dsl.all_upblk_hostobj[ blk ] = m\n",
+       "      s._dsl.all_upblk_hostobj.update( ( blk, m ) for blk in m._dsl.upblks )\n"),
+    _m('calls-stored-by-dict-comprehension-update', L2, "      s._dsl.all_upblk_writes.update( m._dsl.upblk_writes )",
+       "      s._dsl.all_upblk_writes.update( { b: w for b, w in m._dsl.upblk_writes.items() } )"),
     _m('add-sets-via-update', COMP, "    top._dsl.all_signals       |= added_signals", "    top._dsl.all_signals.update( added_signals )"),
 ]
 
